@@ -87,6 +87,7 @@ def run(ctx):
     pipeline.close_ref()
     # the hypotheses of C01.sig_sound / memo_correct / history_correct on everything that was generated
     res.count("universe_function_versions", uc.functions)
+    res.count("keeps_applied_to_data_functions(outside keepsPlain)", uc.keeps_on_data_functions)
     for pb in sorted(set(uc.problems))[:5]:
         res.disagreements.append({"what": "hypothesis of the Lean theorems (structure Universe) not met by a generated program: " + pb})
     res.rule = ("seeded histories over generated pipelines (2..8 functions; call / reference / keep with literal, run-time, default and "
